@@ -1,11 +1,11 @@
 (** Extraction of the executable model for the correspondence check.
     Only the directives of ExtrOcamlBasic are used (bool, option, unit, prod, list, sumbool,
     sumor); N, Z, positive, nat stay the extracted Coq datatypes; no Extract Constant. *)
-From TB Require Import Base LayoutModel Decimal BencodeModel Utf8 Sha1 TorrentModel PathModel FsModel SolverModel FinderModel RunModel SystemModel ExecModel BalanceModel ExecRun.
+From TB Require Import Base LayoutModel Decimal BencodeModel Utf8 Sha1 TorrentModel PathModel FsModel SolverModel FinderModel RunModel SystemModel ExecModel BalanceModel ExecRun IndexModel.
 From Coq Require Import Extraction ExtrOcamlBasic.
 Extraction Language OCaml.
 Extraction "extracted/model.ml" layout layout_single layout_multi hash_count_ok
   decode load sha1 hexdigest utf8_valid
   distinct_torrents metadata_table prelude_prog populate work_of solve_prog walk apply_op
   fs_lookup fs_content fs_file set_node set_data unique_lengths scan_registers under_of path_eqb fileid_eqb
-  rank sort_candidates prune searches_for write_prog resize_prog sys_do sys_event sys_skip sys_run count progress xrun xstep xinit xdone balanced_check.
+  rank sort_candidates prune searches_for write_prog resize_prog sys_do sys_event sys_skip sys_run count progress xrun xstep xinit xdone balanced_check build_index.
